@@ -52,7 +52,14 @@ use thiserror::Error;
 /// methods. Held by the bridge `EGraph` inside an `Arc<RwLock<_>>`.
 #[derive(Clone)]
 pub struct ActionRegistry {
-    table_actions: hashbrown::HashMap<String, TableAction>,
+    /// Every handle registered under a name, oldest first.
+    ///
+    /// One registry is shared by an `EGraph`, its clones and its `push`
+    /// snapshots, and each of those may declare its own table under the same
+    /// name. A later registration therefore must not replace an earlier one
+    /// that is still live somewhere else: the handles are told apart by the
+    /// allocation they name (see [`TableAction::is_live`]).
+    table_actions: hashbrown::HashMap<String, Vec<TableAction>>,
     union_action: UnionAction,
     default_panic_id: ExternalFunctionId,
 }
@@ -67,16 +74,29 @@ impl ActionRegistry {
     }
 
     pub(crate) fn register_table(&mut self, name: String, action: TableAction) {
-        self.table_actions.insert(name, action);
+        let actions = self.table_actions.entry(name).or_default();
+        actions.retain(|registered| registered.identity != action.identity);
+        actions.push(action);
     }
 
-    /// Look up the [`TableAction`] for a table by name, or `None` if
-    /// no table with that name has been registered. The registry may become
-    /// obsolete because of `push`/`pop`, so a hit may name a table a given
-    /// execution state no longer has; check it with [`TableAction::is_live`]
-    /// before use.
+    /// Look up the most recently registered [`TableAction`] for a table name,
+    /// or `None` if no table with that name has been registered. The registry
+    /// is shared with clones and `push` snapshots, so a hit may name a table a
+    /// given execution state does not have; check it with
+    /// [`TableAction::is_live`] before use, or use
+    /// [`ActionRegistry::lookup_live_table`].
     pub fn lookup_table(&self, name: &str) -> Option<&TableAction> {
-        self.table_actions.get(name)
+        self.table_actions.get(name)?.last()
+    }
+
+    /// Look up the [`TableAction`] registered under `name` for the table that
+    /// exists in `state`, or `None` if `state` has no such table.
+    pub fn lookup_live_table(&self, name: &str, state: &ExecutionState) -> Option<&TableAction> {
+        self.table_actions
+            .get(name)?
+            .iter()
+            .rev()
+            .find(|action| action.is_live(state))
     }
 
     /// Snapshot the names and row counts of the registered tables that exist
@@ -84,8 +104,10 @@ impl ActionRegistry {
     pub fn table_sizes(&self, state: &ExecutionState) -> Vec<(&str, usize)> {
         self.table_actions
             .iter()
-            .filter(|(_, action)| action.is_live(state))
-            .map(|(name, action)| (name.as_str(), action.row_count(state)))
+            .filter_map(|(name, actions)| {
+                let action = actions.iter().rev().find(|action| action.is_live(state))?;
+                Some((name.as_str(), action.row_count(state)))
+            })
             .collect()
     }
 
